@@ -87,6 +87,17 @@ PROPS = {
         'assumptions': ['linearizable reads rest on dragonboat ReadIndex (SyncRead) correctness'],
         'trusted': ['modelled, not verified: dragonboat SyncRead/StaleRead'],
     },
+    'C06': {
+        'level_text': "Lean theorems: cache invariant (buffer = contiguous run of the log's own entries) preserved by every query for all cache sizes, size limits and query sequences (cachedQuery_exact: a ~150-line case analysis of get/put/makeRoomAndAppend/findIndex/fixSize); every non-error answer of both readers is a non-empty run starting at the requested index and not beyond applied (D7 regression); cached and uncached answers agree up to the size cut; classification (compacted -> use snapshot, applied+1 -> empty, beyond -> leader behind); the Replicate stream = exactly the requested range in non-empty batches followed by one final message, by induction on the loop. Tied to the code by differential runs of logreader.Simple, logreader.Cached (cache sizes 1..64, limits from 1 byte, delayed invalidation) and the real LogServer.Replicate over a stub log.",
+        'level_note': "Trusted: Lean kernel, harness. Assumed about dragonboat: Entries(low,high,max) returns a non-empty prefix of the immutable history inside the log (EntriesSpec); GetRange is truthful. The classification theorem for the cached reader is for an invalidated (empty) cache; during the asynchronous invalidation window a compacted index may still be served from the cache (the entries are still the log's own: exactness holds).",
+        'modules': ['Regatta.Props.C06'],
+        'runs': [
+            {'name': 'log', 'harness': 'log', 'driver': 'log', 'quick': {'VERIF_N': 2500}, 'thorough': {'VERIF_N': 250000}},
+        ],
+        'rule': 'random scripts (append/apply, compaction with and without cache invalidation, queries and whole Replicate loops with the range end always applied+1) against logreader.Simple, logreader.Cached and LogServer.Replicate over a stub log; entries of all four Raft types, command sizes 0..3000, size limits 1..6500',
+        'assumptions': ['dragonboat Entries returns a non-empty prefix of the requested range inside the log; the history below the applied index is immutable (Raft)'],
+        'trusted': ['modelled, not verified: dragonboat log reader (stub in the harness), gRPC stream'],
+    },
 }
 
 NOT_YET = {}
